@@ -20,8 +20,7 @@ class VmIo:
                 self._unnamed.append(self._reg.get_by_enum(inst.param1))
             case IoOp.PRINT:
                 if len(self._unnamed) > 0:
-                    output.out(self._unnamed[0])
-                    self._unnamed.clear()
+                    output.out(self._unnamed.pop())
             case IoOp.PRINT_END:
                 output.newline()
             case IoOp.PRINTF:
@@ -46,13 +45,22 @@ class VmIo:
     def _printf(self, inst, output):
         format_str = inst.param1.replace('\\n', '\n')
         named = {}
+        num_unnamed = 0
         for field in string.Formatter().parse(format_str):
             name = field[1]
-            if name is not None and len(name) > 0 and not name.isdecimal():
+            if name is None:
+                continue
+            if len(name) == 0 or name.isdecimal():
+                num_unnamed += 1
+            else:
                 reg = Register.from_string(name)
                 if reg is not None:
                     named[name] = self._reg.get_by_enum(reg)
                 else:
                     named[name] = self._call_stack.get_variable(name)
-        output.out(format_str.format(*self._unnamed, **named))
-        self._unnamed.clear()
+        # The values of this statement are the ones pushed last; anything below
+        # them belongs to a statement that is still evaluating its own values.
+        first = max(0, len(self._unnamed) - num_unnamed)
+        unnamed = self._unnamed[first:]
+        del self._unnamed[first:]
+        output.out(format_str.format(*unnamed, **named))
